@@ -1,39 +1,29 @@
 """Per-property configuration of the orchestrator (bin/check).
 
+One JSON file per property in tools/props.d/<id>.json (so that branches never conflict):
+
 groups      harness generator groups whose cases decide the property (qvh gen <group> …)
 module      Lean module holding the property's theorems (QV.Properties.<id> by default)
 features    cargo features of /repo the harness needs for this property
 strict_err  compare error *variants* between implementation and model for the verdict
             (only where the property names the error; otherwise informational)
 design_ref  DESIGN.md section
+technique, level_text, level_note, assumptions, evidence_notes   free text for MANIFEST/evidence
 """
+import glob
+import json
+import os
 
-PROPS = {
-    "C11": {
-        "groups": ["tsig"],
-        "strict_err": True,
-        "design_ref": "§6 C11",
-        "technique": "Lean 4 proof for an arbitrary MAC function: digest input of the three signing/verification modes = RFC 8945 §4.3 construction; verify = ok ↔ allowed MAC size ∧ MAC = truncated tag ∧ |now − signed| ≤ fudge, with FormErr > BadSig > BadTime; verify∘sign = ok inside the window; injectivity of the digest input in every covered field (tampering ⇒ explicit truncated-MAC collision); Lean SHA-1/SHA-256/HMAC and the TSIG model tied to src/message/tsig.rs, src/rr/rdata/tsig.rs, Writer::finish_with_mac and the hmac/sha1/sha2 crates by differential correspondence (published vectors in corpus/C11)",
-        "assumptions": [
-            "HMAC-SHA1 / HMAC-SHA256 are collision- and forgery-resistant (not proved; the tamper theorem reduces acceptance of an altered message to an explicit truncated-tag collision)",
-            "callers uphold the documented preconditions of sign_*/verify_* (message of at least 12 octets whose ARCOUNT counts the TSIG RR, prior MAC ≤ 65535 octets, algorithm argument = algorithm named in the RR); outside them the code panics, which the model reproduces",
-        ],
-        "evidence_notes": [
-            "interpretation: RFC 8945 §5.3.1 'Prior MAC (running)' is framed with its two-octet size like the request MAC of §4.3.1 (BIND-generated vectors of the repository verify only that way)",
-            "the digest input is not injective in (message, key name) for arbitrary octet strings (no delimiter between message and key name): C11_request_digest_ambiguous gives the witness; it is injective for equal-length messages and, more generally, when neither message body is a proper prefix of the other (true of well-framed DNS messages with equal counts)",
-        ],
-    },
-    "C14": {
-        "groups": ["wire"],
-        "design_ref": "§6 C14",
-        "technique": "Lean 4 proof: parser ↔ inductive RFC 1035 §4.1.4 relation (sound+complete, no panic, termination); model tied to src/name/wire.rs by differential correspondence incl. exhaustive ≤5-octet buffers",
-    },
-}
+_HERE = os.path.dirname(os.path.abspath(__file__))
+PROPS = {}
+for _p in sorted(glob.glob(os.path.join(_HERE, "props.d", "C*.json"))):
+    with open(_p, encoding="utf-8") as _f:
+        PROPS[os.path.basename(_p)[:-5]] = json.load(_f)
 
 TRUSTED_BASE = [
     "Lean 4.33.0 kernel (leanchecker re-check in the thorough tier)",
     "axioms allowed: propext, Classical.choice, Quot.sound (audited per theorem with #print axioms); no sorry/admit/native_decide/bv_decide/own axioms",
     "QV/Spec/*: that the specification says what the property says (DESIGN.md §6 records every interpretation)",
     "correspondence check (harness/ + Lean driver + canonicaliser): differential testing that the hand-written model mirrors /repo's current source; the extractor (tools/extract.py) ties constants and tables",
-    "rustc/cargo dev profile (overflow checks on); std, arrayvec, hashbrown, hmac/sha crates as used by quandary",
+    "rustc/cargo dev profile (overflow checks on); std, arrayvec, hashbrown, hmac/sha crates as used by quandary"
 ]
